@@ -56,3 +56,14 @@ SECTION_WORDS = {
     "archiveinfo:UnpackInfo._read": [["FOLDER"]],
     "archiveinfo:UnpackInfo._retrieve_coders_info": [["CODERS_UNPACK_SIZE", "END"], ["CODERS_UNPACK_SIZE", "CRC", "END"]],
 }
+
+
+# what a section WRITER may emit: (section id, optional records in format order or None for 'any order, each at most once', closing id)
+WRITER_WORDS = {
+    "PackInfo": ("PACK_INFO", ["SIZE", "CRC"], "END"),
+    "UnpackInfo": ("UNPACK_INFO", ["FOLDER", "CODERS_UNPACK_SIZE", "CRC"], "END"),
+    "SubstreamsInfo": ("SUBSTREAMS_INFO", ["NUM_UNPACK_STREAM", "SIZE", "CRC"], "END"),
+    "FilesInfo": ("FILES_INFO", None, "END"),
+}
+WRITER_MANDATORY = {"PackInfo": ["SIZE"], "UnpackInfo": ["FOLDER", "CODERS_UNPACK_SIZE"], "SubstreamsInfo": [], "FilesInfo": []}
+FILESINFO_RECORDS = ["EMPTY_STREAM", "EMPTY_FILE", "ANTI", "NAME", "CREATION_TIME", "LAST_ACCESS_TIME", "LAST_WRITE_TIME", "ATTRIBUTES", "START_POS", "DUMMY", "COMMENT"]
